@@ -141,35 +141,8 @@ func main() {
 				break
 			}
 		}
-		// Each obligation is a necessary condition on its own and each variant behaves like the
-		// program: an obligation that does not hold on the program as written is also discharged
-		// when it holds, under the same key, on one of the variants (different obligations may
-		// need different variants: a deferred release survives only where its helper was not
-		// inlined at a non-tail call, a guard may only be visible where it was).
-		if !passed {
-			merged := 0
-			for _, o := range r.FailingObligations(*verif) {
-				for lvl, rv := range variantRuns {
-					done := false
-					for _, ov := range rv.Obl {
-						if ov.Key == o.Key && ov.Verdict == core.Held {
-							*o = *ov
-							o.Msgs = append(o.Msgs, fmt.Sprintf("held on inlined variant %d of the program (not on the program as written)", lvl+1))
-							merged++
-							done = true
-							break
-						}
-					}
-					if done {
-						break
-					}
-				}
-			}
-			if merged > 0 && r.Failing(*verif) == 0 {
-				r.Extra["evaluated_on"] = fmt.Sprintf("the program as written, with %d obligations discharged on behaviour-equivalent inlined variants (each obligation is a necessary condition on its own)", merged)
-				fmt.Printf("note: %s holds obligation by obligation: %d obligations are discharged on inlined variants\n", *prop, merged)
-			}
-		}
+		_ = passed
+		_ = variantRuns
 	}
 	if *list {
 		for _, o := range r.Obl {
